@@ -410,6 +410,9 @@ local CMP = {
   ["false"] = function(a, b) N = N + 1 return false end,
   rand = function(a, b) N = N + 1 S = (S * 1103515245 + 12345) % 2147483648 return (S // 65536) % 2 == 1 end,
   errk = function(a, b) N = N + 1 if N == K then error("E", 0) end return a < b end,
+  ltnil = function(a, b) N = N + 1 if a < b then return true end end,
+  gtnum = function(a, b) N = N + 1 if a > b then return 0 end return nil end,
+  ltmany = function(a, b) N = N + 1 return a < b, true, "x", not (a < b) end,
 }
 local function srt(id, cmp, k, B, P)
   N, K, S = 0, k, k
